@@ -143,7 +143,7 @@ def cstTag {σ : Type} : CSt σ → String
 structure Obj where
   c : SBody
   sys : Sys c
-  pending : Option (MonId × Op)
+  pending : Option (MonId × Op × Bool)   -- Bool: through a BoundMonitor
   logs : c.σ → String
 
 def mkLeaf (pid : Nat) (prog : List Stmt) : (c : SBody) × (c.σ → String) :=
@@ -180,32 +180,35 @@ def build (st : St) : List Nat → Option ((c : SBody) × (c.σ → String))
     | some prog, some ch => some (mkNest p prog ch)
     | _, _ => none
 
-def finishStep (o : Obj) (m : MonId) (op : Op) (r : Sys o.c × CallOut) : Obj × String :=
-  let o' : Obj := { o with sys := r.1, pending := match r.2 with | .pending _ => some (m, op) | _ => none }
+def finishStep (o : Obj) (m : MonId) (op : Op) (b : Bool) (r : Sys o.c × CallOut) : Obj × String :=
+  let o' : Obj := { o with sys := r.1, pending := match r.2 with | .pending _ => some (m, op, b) | _ => none }
   (o', report o' r.2)
 
 def stepObj (o : Obj) (args : List String) : Option (Obj × String) :=
   match args, o.pending with
-  | "call" :: m :: _fl :: rest, _ =>
+  | "call" :: m :: fl :: rest, _ =>
     match m.toNat?, parseOp rest with
     | some m, some (op, _) =>
-      let r := callStart m op o.sys
+      let b := fl != "u"
+      let r := if b then boundStart m op o.sys else callStart m op o.sys
       let pend := match r.2, o.pending with
-        | .pending _, _ => some (m, op)
+        | .pending _, _ => some (m, op, b)
         | _, p => p
       let o' : Obj := { o with sys := r.1, pending := pend }
       some (o', report o' r.2)
     | _, _ => none
-  | ["send", v], some (m, op) =>
+  | ["send", v], some (m, op, b) =>
     match v.toInt? with
-    | some v => some (finishStep o m op (callResume m op (.send v) o.sys))
+    | some v => some (finishStep o m op b
+        (if b then boundResume m op (.send v) o.sys else callResume m op (.send v) o.sys))
     | none => none
-  | ["throw", e], some (m, op) =>
+  | ["throw", e], some (m, op, b) =>
     match parseExc e with
-    | some e => some (finishStep o m op (callResume m op (.throw e) o.sys))
+    | some e => some (finishStep o m op b
+        (if b then boundResume m op (.throw e) o.sys else callResume m op (.throw e) o.sys))
     | none => none
-  | ["close"], some (m, op) =>
-    let r := callClose m op o.sys
+  | ["close"], some (m, op, b) =>
+    let r := if b then boundClose m op o.sys else callClose m op o.sys
     let o' : Obj := { o with sys := r.1, pending := none }
     some (o', report o' r.2)
   | _, _ => none
